@@ -8,6 +8,7 @@ import (
 	"fmt"
 	"io"
 	"math/rand"
+	"mime/multipart"
 	"net/http"
 	"net/http/httptest"
 	goruntime "runtime"
@@ -35,7 +36,8 @@ type c09In struct {
 	Kind    string `json:"kind"`
 	Anon    bool   `json:"anon"`            // the secured operation also lists the empty (anonymous) alternative
 	Authz   string `json:"authz"`           // none | accept | deny
-	Target  string `json:"target"`          // items | open | missing
+	Target  string `json:"target"`          // items | open | missing | find | range | form
+	TokIn   string `json:"tok_in,omitempty"` // target form: where the bearer token travels: header (Authorization: Bearer) | query (access_token) | form (access_token inside the form body)
 	CT      string `json:"ct"`              // json | jsoncs | text | malformed | absent
 	Body    string `json:"body"`            // valid | invalid | none
 	Accept  string `json:"accept"`          // json | png | absent | any
@@ -81,7 +83,7 @@ func init() { register(c09{}) }
 func (c09) ID() string        { return "C09" }
 func (c09) CoqModule() string { return "Check_C09" }
 func (c09) Rule() string {
-	return "seq: request configurations (target items/open/missing x content type x body x Accept x credential x anonymous alternative x authorizer) crossed with random histories of 1-14 accessor calls, plus all histories of length <= 3 over the 7 calls for 4 fixed configurations (enum); " +
+	return "seq: request configurations (target items/open/missing/find/range/form x content type x body x Accept x credential x anonymous alternative x authorizer) crossed with random histories of 1-14 accessor calls, plus all histories of length <= 3 over the 7 calls for 5 fixed configurations (enum); " +
 		"non-trivial: a history in which some call is repeated after it first succeeded. conc: N in 2..64 concurrent mixed requests through the full handler (race detector on); non-trivial always."
 }
 
@@ -138,10 +140,13 @@ func c09Spec(anon bool) string {
 		sec = `[{"key":[]},{"tok":[]},{}]`
 	}
 	return `{"swagger":"2.0","info":{"title":"t","version":"1"},"consumes":["application/json"],"produces":["application/json","text/plain"],
-"securityDefinitions":{"key":{"type":"apiKey","in":"header","name":"X-Key"},"tok":{"type":"apiKey","in":"header","name":"X-Tok"}},
+"securityDefinitions":{"key":{"type":"apiKey","in":"header","name":"X-Key"},"tok":{"type":"apiKey","in":"header","name":"X-Tok"},
+"oauth":{"type":"oauth2","flow":"accessCode","authorizationUrl":"http://h/auth","tokenUrl":"http://h/token","scopes":{}}},
 "paths":{"/items/{id}":{"post":{"security":` + sec + `,"parameters":[{"name":"id","in":"path","type":"string","required":true},
 {"name":"body","in":"body","required":true,"schema":{"type":"object"}}],"responses":{"200":{"description":"ok"}}}},
 "/open":{"get":{"responses":{"200":{"description":"ok"}}}},
+"/form/{id}":{"post":{"consumes":["application/x-www-form-urlencoded","multipart/form-data"],"security":[{"oauth":[]}],"parameters":[{"name":"id","in":"path","type":"string","required":true},
+{"name":"note","in":"formData","type":"string","required":true},{"name":"extra","in":"formData","type":"string"}],"responses":{"200":{"description":"ok"}}}},
 "/range/{id}":{"post":{"consumes":["text/*"],"parameters":[{"name":"id","in":"path","type":"string","required":true},{"name":"body","in":"body","schema":{"type":"object"}}],"responses":{"200":{"description":"ok"}}}},
 "/find/{id}":{"get":{"parameters":[{"name":"id","in":"path","type":"string","required":true},{"name":"q","in":"query","type":"string"},{"name":"n","in":"query","type":"integer","format":"int64"}],"responses":{"200":{"description":"ok"}}}}}}`
 }
@@ -182,6 +187,22 @@ func c09Build(anon bool, authz bool) *c09API {
 			return nil
 		}))
 	}
+	// the form operation: its parameters are read from the parsed form, not through a consumer
+	api.RegisterConsumer(c09FormURL, runtime.DiscardConsumer)
+	api.RegisterConsumer(c09FormMP, runtime.DiscardConsumer)
+	// an oauth2 scheme served by the library's bearer authenticator: the token may travel in the Authorization header,
+	// in the query, or as access_token inside a form body (then authenticating parses the body)
+	bearer := security.BearerAuth("oauth", func(token string, scopes []string) (interface{}, error) {
+		if strings.HasPrefix(token, "good-") {
+			return "oauth:" + token, nil
+		}
+		return nil, errors.Unauthenticated("oauth")
+	})
+	api.RegisterAuth("oauth", runtime.AuthenticatorFunc(func(params interface{}) (bool, interface{}, error) {
+		c09Count(&c09Cnt.authn)
+		c09Rendezvous()
+		return bearer.Authenticate(params)
+	}))
 	keyAuth := security.APIKeyAuth("X-Key", "header", func(tok string) (interface{}, error) {
 		if strings.HasPrefix(tok, "good") {
 			return "user:" + tok, nil
@@ -208,6 +229,13 @@ func c09Build(anon bool, authz bool) *c09API {
 			if r.Header.Get("X-Key") == "" {
 				want = "tok:" + r.Header.Get("X-Tok")
 			}
+			if strings.HasPrefix(r.URL.Path, "/form/") { // the token of request rid is good-<rid>; the path is /form/<rid>[/...]
+				rid := strings.TrimPrefix(r.URL.Path, "/form/")
+				if i := strings.IndexByte(rid, '/'); i >= 0 {
+					rid = rid[:i]
+				}
+				want = "oauth:good-" + rid
+			}
 			if p, ok := principal.(string); ok && p != want {
 				c09Leak("authorizer: request with key %q / token %q was given principal %q", r.Header.Get("X-Key"), r.Header.Get("X-Tok"), p)
 			}
@@ -226,6 +254,11 @@ func c09Build(anon bool, authz bool) *c09API {
 		m := params.(map[string]interface{})
 		c09Retain(m)
 		return map[string]interface{}{"id": m["id"], "body": m["body"]}, nil
+	}))
+	api.RegisterOperation("post", "/form/{id}", runtime.OperationHandlerFunc(func(params interface{}) (interface{}, error) {
+		m := params.(map[string]interface{})
+		c09Retain(m)
+		return map[string]interface{}{"id": m["id"], "note": m["note"]}, nil
 	}))
 	api.RegisterOperation("get", "/open", runtime.OperationHandlerFunc(func(params interface{}) (interface{}, error) {
 		return map[string]interface{}{"open": true}, nil
@@ -326,6 +359,8 @@ func c09Request(in c09In, rid string) *http.Request {
 		}
 	case "missing":
 		method, path = "GET", "/nothing/here"
+	case "form":
+		return c09FormRequest(in, rid)
 	}
 	var body io.Reader
 	switch in.Body {
@@ -335,6 +370,79 @@ func c09Request(in c09In, rid string) *http.Request {
 		body = bytes.NewReader([]byte(`{"rid":`))
 	}
 	req := httptest.NewRequest(method, path, body)
+	c09Headers(req, in, rid)
+	return req
+}
+
+const c09FormURL, c09FormMP = "application/x-www-form-urlencoded", "multipart/form-data"
+
+// c09Token is the bearer token request rid presents to the form operation ("" = none).
+func c09Token(in c09In, rid string) string {
+	switch in.Key {
+	case "good", "tok", "both":
+		return "good-" + rid
+	case "bad":
+		return "bad-" + rid
+	}
+	return ""
+}
+
+// c09FormRequest: POST /form/{id} with a form body that always has some field: note=<rid> (body valid) or only
+// other=<rid> (the required note is missing); content types json / jsoncs stand for the two form media types here
+// (urlencoded / multipart), the others are sent as for every target. The bearer token travels where in.TokIn says.
+func c09FormRequest(in c09In, rid string) *http.Request {
+	path := "/form/" + rid
+	if in.Esc {
+		path += "%2Fz%20%C3%A9"
+	}
+	fields := [][2]string{}
+	tok := c09Token(in, rid)
+	if tok != "" && in.TokIn == "form" {
+		fields = append(fields, [2]string{"access_token", tok})
+	}
+	if in.Body == "valid" {
+		fields = append(fields, [2]string{"note", rid})
+	} else {
+		fields = append(fields, [2]string{"other", rid})
+	}
+	if tok != "" && in.TokIn == "query" {
+		path += "?access_token=" + tok
+	}
+	var buf bytes.Buffer
+	ct := ""
+	if in.CT == "jsoncs" {
+		w := multipart.NewWriter(&buf)
+		_ = w.SetBoundary("c09boundary" + rid)
+		for _, f := range fields {
+			_ = w.WriteField(f[0], f[1])
+		}
+		_ = w.Close()
+		ct = w.FormDataContentType()
+	} else {
+		for i, f := range fields {
+			if i > 0 {
+				buf.WriteByte('&')
+			}
+			buf.WriteString(f[0] + "=" + f[1])
+		}
+		if in.CT == "json" {
+			ct = c09FormURL
+		}
+	}
+	req := httptest.NewRequest("POST", path, bytes.NewReader(buf.Bytes()))
+	c09Headers(req, in, rid)
+	if ct != "" {
+		req.Header.Set("Content-Type", ct)
+	}
+	req.Header.Del("X-Key")
+	req.Header.Del("X-Tok")
+	if tok != "" && in.TokIn != "form" && in.TokIn != "query" {
+		req.Header.Set("Authorization", "Bearer "+tok)
+	}
+	return req
+}
+
+func c09Headers(req *http.Request, in c09In, rid string) {
 	switch in.CT {
 	case "json":
 		req.Header.Set("Content-Type", "application/json")
@@ -377,7 +485,6 @@ func c09Request(in c09In, rid string) *http.Request {
 	if in.Authz == "deny" {
 		req.Header.Set("X-Authz", "deny")
 	}
-	return req
 }
 
 var c09Other = []string{"image/png", "text/plain; charset=utf-8"}
@@ -394,6 +501,10 @@ func c09MT(s string) int {
 		return 4
 	case "text/csv":
 		return 6
+	case c09FormURL:
+		return 7
+	case c09FormMP:
+		return 8
 	case "text/plain; charset=utf-8": // an offer that carries a parameter: what is negotiated is the offer as spelled
 		return 5
 	case "":
@@ -422,6 +533,8 @@ func c09Static(in c09In, a *c09API) string {
 		route = 3
 	case "range":
 		route = 4
+	case "form":
+		route = 5
 	}
 	hasBody := runtime.HasBody(c09Request(in, "r1"))
 	mt, _, cterr := runtime.ContentType(probe.Header)
@@ -434,6 +547,15 @@ func c09Static(in c09In, a *c09API) string {
 	case in.Key == "absent" && in.Anon:
 		auth = "AuthAnon"
 	}
+	isForm := cterr == nil && (mt == c09FormURL || mt == c09FormMP)
+	if in.Target == "form" {
+		// the single alternative is the oauth2 scheme: a good token anywhere the bearer authenticator looks (it looks
+		// into the body only when the content type is a form type)
+		auth = "AuthRefused"
+		if strings.HasPrefix(c09Token(in, "r1"), "good-") && (in.TokIn != "form" || isForm) {
+			auth = "AuthPrincipal"
+		}
+	}
 	authorizer := "None"
 	if in.Authz != "none" {
 		authorizer = fmt.Sprintf("(Some %s)", coqBool(in.Authz != "deny"))
@@ -442,9 +564,14 @@ func c09Static(in c09In, a *c09API) string {
 	if in.Target == "find" && in.BadN {
 		bindOK = false
 	}
+	consumer := cterr == nil && mt == "application/json"
+	if in.Target == "form" {
+		bindOK = in.Body == "valid" // the required form field note
+		consumer = consumer || isForm
+	}
 	return fmt.Sprintf("(mkstatic %s %s %s %s %s %s (fun k => match k with 0 => %s | _ => %s end) 0 true %s %s %s)",
-		c09OptNat(route != 0, route), coqBool(in.Target == "items"), coqBool(hasBody),
-		c09OptNat(cterr == nil, c09MT(mt)), coqBool(cterr == nil && c09Admitted(in, mt)), coqBool(cterr == nil && mt == "application/json"),
+		c09OptNat(route != 0, route), coqBool(in.Target == "items" || in.Target == "form"), coqBool(hasBody),
+		c09OptNat(cterr == nil, c09MT(mt)), coqBool(cterr == nil && c09Admitted(in, mt)), coqBool(consumer),
 		c09OptNat(neg0 != "", c09MT(neg0)), c09OptNat(neg1 != "", c09MT(neg1)),
 		auth, authorizer, coqBool(bindOK))
 }
@@ -453,6 +580,9 @@ func c09Static(in c09In, a *c09API) string {
 func c09Admitted(in c09In, mt string) bool {
 	if in.Target == "range" { // the API default is added to every route's consumes
 		return strings.HasPrefix(mt, "text/") || mt == "application/json"
+	}
+	if in.Target == "form" {
+		return mt == c09FormURL || mt == c09FormMP || mt == "application/json"
 	}
 	return mt == "application/json"
 }
@@ -554,6 +684,12 @@ func c09Op(a *c09API, in c09In, rid string, req *http.Request, o int) (c09Step, 
 					c09Leak("RouteInfo: request %s matched with id %q", rid, got)
 				}
 			}
+			if strings.HasPrefix(mr.PathPattern, "/form") {
+				id = 5
+				if got := mr.Params.Get("id"); got != c09ID(in, rid) {
+					c09Leak("RouteInfo: request %s matched with id %q", rid, got)
+				}
+			}
 			if strings.HasPrefix(mr.PathPattern, "/items") {
 				id = 1
 				if got := mr.Params.Get("id"); got != c09ID(in, rid) {
@@ -603,6 +739,9 @@ func c09Op(a *c09API, in c09In, rid string, req *http.Request, o int) (c09Step, 
 			if in.Key == "tok" {
 				wantP = "tok:tok-" + rid
 			}
+			if in.Target == "form" {
+				wantP = "oauth:good-" + rid
+			}
 			if ps, _ := p.(string); ps != wantP {
 				c09Leak("Authorize: request %s got principal %q", rid, ps)
 			}
@@ -638,6 +777,16 @@ func c09Op(a *c09API, in c09In, rid string, req *http.Request, o int) (c09Step, 
 				c09Leak("BindAndValidate: request %s (%s) was decoded by the consumer of %v", rid, req.Header.Get("Content-Type"), b["by"])
 			}
 		}
+		if m, ok := bound.(map[string]interface{}); ok && in.Target == "form" {
+			if id, present := m["id"]; present && id != c09ID(in, rid) {
+				c09Leak("BindAndValidate: request %s bound id %v", rid, id)
+			}
+			// whenever the binder ran (no earlier stage turned the request down) the form field the request carries is bound,
+			// and it is this request's own: whoever looked into the form before (the bearer authenticator) does not use it up
+			if codes := c09Codes(err); in.Body == "valid" && (codes == "[]" || codes == "[422]") && m["note"] != rid {
+				c09Leak("BindAndValidate: request %s carries note=%s in its form; bound note %v (%s)", rid, rid, m["note"], codes)
+			}
+		}
 		if m, ok := bound.(map[string]interface{}); ok && in.Target == "items" {
 			if id, present := m["id"]; present && id != c09ID(in, rid) {
 				c09Leak("BindAndValidate: request %s bound id %v", rid, id)
@@ -661,7 +810,8 @@ func c09Op(a *c09API, in c09In, rid string, req *http.Request, o int) (c09Step, 
 		}
 		// likewise the Content-Type header: once its parse is cached on the request, later askers get the cached parse
 		// whatever a middleware did to the header meanwhile
-		if c09CtDone[rid] && req.Header.Get("Content-Type") != "" {
+		// (not on the form operation: the form binder and the bearer authenticator read the header themselves)
+		if c09CtDone[rid] && req.Header.Get("Content-Type") != "" && in.Target != "form" {
 			req.Header.Del("Content-Type")
 		}
 		st.Res, st.Same = "RTampered", true
@@ -767,7 +917,8 @@ func c09RunConc(in c09In, a *c09API, obs *c09Obs) {
 	var jobs []job
 	for i := 0; i < in.N; i++ {
 		j := in
-		j.Target = []string{"items", "items", "open", "missing", "range"}[r.Intn(5)]
+		j.Target = []string{"items", "items", "open", "missing", "range", "form", "form"}[r.Intn(7)]
+		j.TokIn = []string{"header", "query", "form", "form"}[r.Intn(4)]
 		j.Key = []string{"good", "good", "bad", "absent", "tok", "both"}[r.Intn(6)]
 		j.Body = []string{"valid", "valid", "invalid", "none"}[r.Intn(4)]
 		j.CT = []string{"json", "json", "jsoncs", "text", "csv", "absent"}[r.Intn(6)]
@@ -816,6 +967,14 @@ func c09RunConc(in c09In, a *c09API, obs *c09Obs) {
 						b, _ := m["body"].(map[string]interface{})
 						ok = m["id"] == c09ID(jb.in, jb.rid) && b != nil && b["rid"] == jb.rid
 					}
+				}
+				if ok && rec.Code == 200 && jb.in.Target == "form" {
+					var m map[string]interface{}
+					ok = json.Unmarshal(rec.Body.Bytes(), &m) == nil && m["id"] == c09ID(jb.in, jb.rid) && m["note"] == jb.rid
+				}
+				if ok && jb.in.Target == "form" && jb.in.Body == "valid" && (rec.Code == 422 || rec.Code == 401) &&
+					(jb.in.CT == "json" || jb.in.CT == "jsoncs") && strings.HasPrefix(c09Token(jb.in, jb.rid), "good-") {
+					ok = false // a good token and the required field in a form of an accepted type: neither refused nor incomplete
 				}
 				if !ok {
 					mu.Lock()
@@ -888,7 +1047,7 @@ func (c09) Category(inAny any, obsAny any) (string, bool) {
 }
 
 var c09Vals = map[string][]string{
-	"target": {"items", "items", "items", "open", "missing", "find", "find", "range"},
+	"target": {"items", "items", "items", "open", "missing", "find", "find", "range", "form", "form"},
 	"ct":     {"json", "json", "jsoncs", "text", "csv", "malformed", "absent"},
 	"body":   {"valid", "valid", "invalid", "none"},
 	"accept": {"json", "absent", "png", "any", "star", "star", "text", "text"},
@@ -907,8 +1066,9 @@ func (c09) Gen(r *rand.Rand, tier string, i int) any {
 		m := c09In{Kind: "multi", Anon: r.Intn(2) == 0, Authz: c09Pick(r, "authz"), Salt: r.Intn(500000)}
 		nreq := 2 + r.Intn(2)
 		for j := 0; j < nreq; j++ {
-			q := c09In{Kind: "seq", Target: []string{"items", "items", "items", "open", "find", "range", "range"}[r.Intn(7)], CT: c09Pick(r, "ct"), Body: c09Pick(r, "body"),
+			q := c09In{Kind: "seq", Target: []string{"items", "items", "items", "open", "find", "range", "range", "form", "form"}[r.Intn(9)], CT: c09Pick(r, "ct"), Body: c09Pick(r, "body"),
 				Accept: c09Pick(r, "accept"), Key: c09Pick(r, "key"), Esc: r.Intn(3) == 0}
+			c09GenForm(r, &q)
 			if r.Intn(2) == 0 { // spellings of one Accept value that differ in letter case only
 				q.Accept = []string{"jsonS", "jsonSU"}[r.Intn(2)]
 			}
@@ -918,10 +1078,20 @@ func (c09) Gen(r *rand.Rand, tier string, i int) any {
 		for k := 4 + r.Intn(14); k > 0; k-- {
 			m.Sched = append(m.Sched, [2]int{r.Intn(nreq), r.Intn(9)})
 		}
+		for j, q := range m.Reqs {
+			var idx []int
+			for k, e := range m.Sched {
+				if e[0] == j {
+					idx = append(idx, k)
+				}
+			}
+			c09AuthFirst(q, idx, func(k int) int { return m.Sched[idx[k]][1] }, func(k, o int) { m.Sched[idx[k]][1] = o })
+		}
 		return m
 	}
 	in := c09In{Kind: "seq", Anon: r.Intn(2) == 0, Authz: c09Pick(r, "authz"), Target: c09Pick(r, "target"), CT: c09Pick(r, "ct"),
 		Body: c09Pick(r, "body"), Accept: c09Pick(r, "accept"), Key: c09Pick(r, "key"), Esc: r.Intn(3) == 0, BadN: r.Intn(4) == 0}
+	c09GenForm(r, &in)
 	n := 1 + r.Intn(14)
 	if r.Intn(3) != 0 {
 		in.Ops = append(in.Ops, 0) // most histories start by matching the route, as the pipeline does
@@ -929,7 +1099,56 @@ func (c09) Gen(r *rand.Rand, tier string, i int) any {
 	for len(in.Ops) < n {
 		in.Ops = append(in.Ops, r.Intn(9))
 	}
+	c09AuthFirstSeq(&in)
 	return in
+}
+
+// c09GenForm: where the bearer token of a request to the form operation travels; two thirds of these requests are
+// well-formed (a form content type, the required field, a good token), the rest keeps whatever was drawn.
+func c09GenForm(r *rand.Rand, q *c09In) {
+	if q.Target != "form" {
+		return
+	}
+	q.TokIn = []string{"header", "query", "form", "form"}[r.Intn(4)]
+	if r.Intn(3) != 0 {
+		q.CT = []string{"json", "jsoncs"}[r.Intn(2)]
+		q.Body, q.Key = "valid", "good"
+	}
+}
+
+// c09TokenInBody: the request's bearer token travels inside a form body the authenticator will look into.
+func c09TokenInBody(q c09In) bool {
+	return q.Target == "form" && q.TokIn == "form" && (q.CT == "json" || q.CT == "jsoncs") && q.Key != "absent"
+}
+
+// c09AuthFirst puts a request's history into the order the served pipeline uses when its token travels in the form body:
+// a BindAndValidate issued on a routed request before any Authorize becomes an Authorize. (OPEN OBSERVATION, unchanged
+// library, not generated for that reason: validateRequest parses the form on a private copy of the request and the
+// request BindAndValidate returns has a drained body and no parsed form, so an Authorize issued AFTER it does not find
+// access_token and refuses the request: RouteInfo, BindAndValidate, Authorize = 401 where RouteInfo, Authorize = principal.
+// The pipeline itself never binds before it authorizes. See notes/C09.md.)
+func c09AuthFirst(q c09In, ops []int, at func(k int) int, set func(k, o int)) {
+	if !c09TokenInBody(q) {
+		return
+	}
+	routed, authed := false, false
+	for k := range ops {
+		switch o := at(k); {
+		case o == 0:
+			routed = true
+		case o == 4 && routed:
+			authed = true
+		case o == 5 && routed && !authed:
+			set(k, 4)
+			authed = true
+		}
+	}
+}
+
+func c09AuthFirstSeq(in *c09In) bool {
+	changed := false
+	c09AuthFirst(*in, in.Ops, func(k int) int { return in.Ops[k] }, func(k, o int) { in.Ops[k] = o; changed = true })
+	return changed
 }
 
 func (c09) Enumerate(tier string) []any {
@@ -939,6 +1158,7 @@ func (c09) Enumerate(tier string) []any {
 		{Kind: "seq", Anon: true, Authz: "accept", Target: "items", CT: "json", Body: "valid", Accept: "absent", Key: "absent"},
 		{Kind: "seq", Authz: "deny", Target: "items", CT: "text", Body: "invalid", Accept: "png", Key: "good"},
 		{Kind: "seq", Authz: "none", Target: "open", CT: "absent", Body: "none", Accept: "any", Key: "absent"},
+		{Kind: "seq", Authz: "accept", Target: "form", TokIn: "form", CT: "json", Body: "valid", Accept: "json", Key: "good"},
 	}
 	for _, c := range cfgs {
 		for a := 0; a < 7; a++ {
@@ -946,6 +1166,9 @@ func (c09) Enumerate(tier string) []any {
 				for d := 0; d < 7; d++ {
 					x := c
 					x.Ops = []int{0, a, b, d}
+					if c09AuthFirstSeq(&x) {
+						continue // the reordered history is enumerated anyway
+					}
 					out = append(out, x)
 				}
 			}
